@@ -10,6 +10,11 @@ CAP = 2000
 RULES = {
     "C03.1": "cap (MPT in the parse loop): with R the vector returned as Ok(R), every Vec::push(&mut R, _) is reachable from function entry and from any push only through the not-full edge of a test len(R) <op> K whose edge bound implies len(R) <= 1999, the len being read after the last push; R starts empty and no other call mutably borrows R; K evaluates to 2000",
     "C03.2": "budget with at-least-one: every push is reachable (from entry and from any push) only through a budget pass edge: the false edge of `next_total > max_bytes` or the true edge of `R.is_empty()`; next_total is a checked/saturating sum of the running total and the entry's read_size; max_bytes is the caller's argument; every path from a push to the next evaluation of next_total stores next_total into the running total, and the running total has no other non-zero definition",
+    "C03.3": "first entry always fits the plan (at-least-one, only-allowed-bypass): when nothing has been planned yet (planned == 0) the byte range `want` planned for the block at the "
+             "cursor is widened to the size announced by the header at the cursor (want = max(want, PREFIX_META_SIZE + read_size[, + the second header for tiny entries])). Within one "
+             "iteration of the planning loop, the only branches that may bypass that widening are: the peek flag being false - and that flag is cleared only under start_offset = "
+             "Some(_) (offset-addressed reads trim by their own hint) -, the header not fitting into the block's used bytes, an invalid header length, and a failed header decode. "
+             "A budget class for which the widening is skipped plans a range that ends inside the first entry, which the parser then drops: the entry is skipped or never delivered",
 }
 
 LEMMA = ("C03.1: len(R)=0 initially and pushes are the only growth; each push executes with len(R) <= 1999 established after the previous push, "
@@ -236,13 +241,186 @@ def check(ctx, facts, fn_name="batch_read_for_topic", cap=CAP):
         ctx.violate("C03.2", F, "max_bytes-reassigned", fn.relfile, site.line, "the budget argument is overwritten inside the function")
 
 
+def _value_only_under(b, local, value, edges, so_keys, depth=0, seen=None):
+    """Sites at which bool `local` may receive `value` although none of `edges` guards the site.
+    Follows copies and negations; a constant of the other value is harmless; the result of
+    Option::is_some / is_none on the start_offset argument itself is the guard."""
+    from .core.readflags import place_key
+    seen = seen if seen is not None else set()
+    if (local, value) in seen or depth > 8:
+        return []
+    seen.add((local, value))
+    bad = []
+    for site, kind, node in b.defs.get(local, []):
+        guarded_ = any(b.edge_guards(e, site.bb) for e in edges)
+        if kind == "assign":
+            rv = node["rv"]
+            if rv["k"] == "use" and rv["op"].get("k") == "const":
+                if bool(rv["op"].get("val")) == value and not guarded_:
+                    bad.append(site)
+                continue
+            if rv["k"] == "use":
+                q = op_place(rv["op"])
+                if q is not None and not q["p"]:
+                    bad += _value_only_under(b, q["l"], value, edges, so_keys, depth + 1, seen)
+                    continue
+            if rv["k"] == "un" and rv["op"] == "Not":
+                q = op_place(rv["a"])
+                if q is not None and not q["p"]:
+                    bad += _value_only_under(b, q["l"], not value, edges, so_keys, depth + 1, seen)
+                    continue
+            if not guarded_:
+                bad.append(site)
+        elif kind == "call":
+            cn = strip_generics(node.get("callee") or "")
+            m = re.search(r"Option::is_(none|some)$", cn)
+            if m:
+                l = borrowed_local(b, node["args"][0])
+                if l is not None and place_key({"l": l, "p": []}) in so_keys:
+                    # is_some() == true / is_none() == false  <=>  start_offset is Some
+                    if (m.group(1) == "some") == value:
+                        continue
+            if not guarded_:
+                bad.append(site)
+    return bad
+
+
+def check_first_entry_widening(ctx, facts, fn_name="batch_read_for_topic", rid="C03.3"):
+    from .core.cond import classify_edge
+    from .core.symexpr import expr, show, strip_refs
+    from .core.readflags import flag_places, option_edges
+    b = facts.body(fn_name)
+    F = common.short_fn(b.name)
+    mb = b.arg_local("max_bytes")
+    if mb is None:
+        ctx.anchor_missing(rid, "parameter max_bytes of " + F)
+        return
+    # planned-bytes local: compared `< max_bytes` and `== 0`
+    t0 = None
+    for T in all_tests(b):
+        if T.kind == "cmp" and T.op == "Eq" and const_of(b, T.b) == 0:
+            la = op_local(b.resolve_copy(T.a))
+            if la is None:
+                continue
+            for T2 in all_tests(b):
+                if T2.kind == "cmp" and T2.op == "Lt" and op_local(b.resolve_copy(T2.a)) == la and op_local(b.resolve_copy(T2.b)) == mb:
+                    t0 = (T, la, T2)
+    if t0 is None:
+        ctx.anchor_missing(rid, "the `planned == 0` test of the planning loop in " + F)
+        return
+    T0, planned, Tloop = t0
+    # want: cast of (max_bytes - planned)
+    want = None
+    for l, ld in enumerate(b.locals):
+        for site, kind, node in b.defs.get(l, []):
+            if kind == "assign" and node["rv"]["k"] == "cast":
+                e = strip_refs(expr(b, node["rv"]["op"]))
+                if e[0] == "Sub" and show(e, 4) == "Sub(%s, %s)" % (b.local_name(mb), b.local_name(planned)):
+                    want = l
+    if want is None:
+        ctx.anchor_missing(rid, "the remaining-budget local (max_bytes - planned) in " + F)
+        return
+    # the widening: store into want guarded by Gt(R, want)
+    widen = None
+    for T in all_tests(b):
+        if T.kind != "cmp" or T.op not in ("Gt", "Lt"):
+            continue
+        la, lb = op_local(b.resolve_copy(T.a)), op_local(b.resolve_copy(T.b))
+        big, small = (la, lb) if T.op == "Gt" else (lb, la)
+        if small != want or big is None:
+            continue
+        for site, kind, node in b.defs.get(want, []):
+            if kind == "assign" and node["rv"]["k"] == "use" and op_local(b.resolve_copy(node["rv"]["op"])) == big and b.edge_guards(T.true_edge, site.bb):
+                widen = (T, big, site)
+    if widen is None:
+        ctx.violate(rid, F, "no-first-entry-widening", b.relfile, b.term(T0.bb)["line"],
+                    "the planned range is never widened to the size of the entry at the cursor: an entry larger than the byte budget can never be delivered")
+        return
+    Tw, req, wsite = widen
+    src, _, _ = origins(b, {"k": "copy", "place": {"l": req, "p": []}})
+    if any(o.kind == "field" and isinstance(o.what, tuple) and o.what[1] == "read_size" for o in src):
+        ctx.ok(rid, F, "the widening target is computed from the peeked header's read_size", b.relfile, wsite.line)
+    else:
+        ctx.violate(rid, F, "widening-not-from-header", b.relfile, wsite.line, "the value the range is widened to does not derive from the header at the cursor")
+    # bypass edges within one iteration
+    hdr = Tloop.bb
+    start = T0.true_edge[1]
+    target = Tw.bb
+
+    def succ(u):
+        return [v for v in b.succ[u] if v != hdr and v in b.live_blocks]
+    can = {target}
+    changed = True
+    while changed:
+        changed = False
+        for u in b.live_blocks:
+            if u not in can and any(v in can for v in succ(u)):
+                can.add(u)
+                changed = True
+    if start not in can:
+        ctx.violate(rid, F, "widening-unreachable-for-first-entry", b.relfile, wsite.line, "the widening is not reachable from the planned == 0 branch")
+        return
+    out, seen, work = [], set(), [start]
+    while work:
+        u = work.pop()
+        if u in seen or u == target:
+            continue
+        seen.add(u)
+        for v in succ(u):
+            if v in can:
+                work.append(v)
+            elif b.term(v)["k"] != "unreachable":
+                out.append((u, v))
+    so_some = option_edges(b, flag_places(b, "start_offset"), want_none=False)
+    P = facts.const_val("config::PREFIX_META_SIZE")
+    n = 0
+    for e in out:
+        n += 1
+        T, which = classify_edge(b, e)
+        line = b.term(e[0]).get("line")
+        why = None
+        if T is not None and T.kind == "local" and which in ("false", "true"):
+            fl = op_local(b.resolve_copy(T.operand))
+            if fl is not None and b.local_ty(fl) == "bool":
+                bad = _value_only_under(b, fl, which == "true", so_some, flag_places(b, "start_offset"))
+                if bad:
+                    ctx.violate(rid, F, "peek-disabled-outside-offset-reads", b.relfile, bad[0].line,
+                                "the flag that enables the header peek can be false on a path that a cursor-addressed read can take (not under start_offset = Some): for that class of "
+                                "budgets the planned range is not widened to the first entry, an entry larger than the range is cut in the middle and dropped by the parser")
+                    continue
+                else:
+                    why = "peek flag off (possible only under start_offset = Some)"
+        elif T is not None and T.kind == "cmp":
+            ea, eb = show(strip_refs(expr(b, T.a)), 6), show(strip_refs(expr(b, T.b)), 6)
+            if ".used" in ea + eb and str(P) in ea + eb:
+                why = "header does not fit into the block's used bytes"
+            elif "BitOr(" in ea and (const_of(b, T.b) == 0 or eb in ("Sub(%d, 2)" % P, str(P - 2))):
+                why = "invalid header length"
+        elif T is not None and T.kind == "discr":
+            cs = call_site_of(b, {"k": "copy", "place": T.place})
+            if cs is not None and re.search(r"::deserialize$", callee_name(cs.node)):
+                why = "header decode failed"
+        if why:
+            ctx.ok(rid, F, "widening bypass: " + why, b.relfile, line)
+        else:
+            desc = "?"
+            if T is not None and T.kind == "cmp":
+                desc = "%s %s %s is %s" % (show(strip_refs(expr(b, T.a)), 6)[:40], T.op, show(strip_refs(expr(b, T.b)), 6)[:40], which)
+            elif T is not None:
+                desc = "%s test is %s" % (T.kind, which)
+            ctx.violate(rid, F, "first-entry-widening-skipped", b.relfile, line,
+                        "when nothing is planned yet, the widening of the planned range to the first entry's size can be skipped when %s: the range may end inside the first entry" % desc)
+    ctx.floor(rid, "bypass edges of the first-entry widening", n, 4)
+
+
 def run(ctx):
     for k, v in RULES.items():
         ctx.rule(k, v)
     facts = common.mir(ctx, "walrus_rust")
     check(ctx, facts)
+    check_first_entry_widening(ctx, facts)
     ctx.assume("rustc MIR construction and callee resolution; Vec::push grows by exactly one; std checked_add/saturating_add do not wrap")
-    ctx.assume("the progress clause (at least one entry whenever one is unconsumed) is NOT decided: it depends on planner arithmetic over runtime sizes")
+    ctx.assume("of the progress clause (at least one entry whenever one is unconsumed) only C03.3's structural part is decided; the planner arithmetic over runtime sizes is not")
     return {
         "explanation": "must-pass-through analysis on the MIR CFG of batch_read_for_topic: pushes into the returned vector are cut off from entry and from each other when the "
                        "cap-test / budget-test pass edges are removed; plus def-use obligations on the running total. Decides the cap and budget clauses for every input; the progress clause is not decided.",
